@@ -40,6 +40,7 @@ func init() {
 			{ID: "C04.S1", Doc: "the lent receive buffer is always handed back (packetBuffer.Close waits for it while Stream.Cancel holds Stream.mu)", Alias: "C01.R3"},
 			{ID: "C04.S2", Doc: "packet-buffer wake-ups: a cancelled receiver parked in Get is woken by Close", Alias: "C01.R4"},
 			{ID: "C04.S3", Doc: "cancel sets the state signals under Stream.mu", Alias: "C03.R1"},
+			{ID: "C04.S4", Doc: "exactly one finished token per stream: a stale token would make the watcher of the next stream return before that stream finished, so its cancellation is never delivered", Alias: "C02.R6"},
 		},
 	})
 }
